@@ -106,8 +106,8 @@ static Op gen_op(FDP& f, int nreg, int unreg_client, bool allow_hello, std::vect
 // modelled answer or NoMemory, nothing else changes, nothing leaks, and the retry is answered as modelled.
 static Op gen_query(FDP& f, int nreg) {
   Op op; int c = (int)pick(f, nreg); op.c = c;
-  int kind = (int)pick(f, 11); int nk = (int)pick(f, 5); int t = (int)pick(f, nreg);
-  static const char* const kMember[] = {"GetNameOwner", "NameHasOwner", "ListQueuedOwners", "GetConnectionUnixUser", "GetConnectionCredentials", "GetConnectionUnixProcessID", "ListNames", "ListActivatableNames", "GetId", "Introspect", "GetAll"};
+  int kind = (int)pick(f, 12); int nk = (int)pick(f, 5); int t = (int)pick(f, nreg);
+  static const char* const kMember[] = {"GetNameOwner", "NameHasOwner", "ListQueuedOwners", "GetConnectionUnixUser", "GetConnectionCredentials", "GetConnectionUnixProcessID", "ListNames", "ListActivatableNames", "GetId", "Introspect", "GetAll", "ReloadConfig"};
   std::string member = kMember[kind];
   bool takes_name = kind <= 5;
   std::string fixed = nk == 0 ? kNames[0] : nk == 1 ? kNames[1] : nk == 2 ? BUS_NAME : nk == 3 ? "" : "com.vp.Nobody";
@@ -121,6 +121,7 @@ static Op gen_query(FDP& f, int nreg) {
   op.apply = [=](BusModel& m, const Msg& r, Out& o) {
     std::string me = m.conns[c].unique;
     auto any = [&]() { Exp e = exp_reply(me, r.serial, {}); e.any_body = true; m.emit_to(c, e, o); };
+    if (kind == 11) { m.emit_to(c, exp_reply(me, r.serial, {}), o); return; }   // the configuration file is unchanged: reloading it changes nothing
     if (!takes_name) { any(); return; }
     std::string name = r.body.empty() ? "" : r.body[0].s;
     std::string own = name == BUS_NAME ? std::string(BUS_NAME) : m.owner_unique(name);
